@@ -258,6 +258,7 @@ func runC13(c *Check) {
 	c.ruleSizeCoupledWithCounter("R10", a)
 	c.rulePendingForkGuardOnParent("R7")
 	c.ruleRequestOnlyIfUnknownEverywhere("R11")
+	c.ruleFilledRequestsGoOut("R12", "handlers.(*HeadersHandler).Handle", "spynode.(*Node).processBlocks")
 	c.ruleRemovedRangeIsCountedRange("R2", a.blocksRequested, a.pendingBlockSize)
 
 	// ---- R6: lockset for State
